@@ -70,6 +70,18 @@ def angle_deg(a, b, c):
     return math.degrees(math.acos(max(-1.0, min(1.0, cosang))))
 
 
+def gromacs_dihedral_deg(xi, xj, xk, xl):
+    """dihedral angle as GROMACS computes it (bondeds dih_angle): angle between the normals m = r_ij x r_kj and
+    n = r_kj x r_kl, sign of r_ij . n  (IUPAC convention)"""
+    xi, xj, xk, xl = (np.asarray(v, dtype=float) for v in (xi, xj, xk, xl))
+    r_ij, r_kj, r_kl = xi - xj, xk - xj, xk - xl
+    m = np.cross(r_ij, r_kj)
+    n = np.cross(r_kj, r_kl)
+    cosphi = np.dot(m, n) / (np.linalg.norm(m) * np.linalg.norm(n))
+    phi = math.degrees(math.acos(max(-1.0, min(1.0, cosphi))))
+    return phi if np.dot(r_ij, n) >= 0 else -phi
+
+
 def labelled_key(graph):
     """canonical form of an atom-name labelled bond graph when names are unique, else None"""
     names = nx.get_node_attributes(graph, "atomname")
@@ -315,6 +327,12 @@ def check_c15(ctx, job, top):
                     if abs(d - l) > 0.05 + 1e-9:
                         ctx.fail("C15", "tolerance", f"{nd['resname']} reported optimised but constraint "
                                                      f"{anames[a]}-{anames[b]} is {d:.4f} (target {l})")
+                for a, b, c, d, q0, _k in rt.get("impropers", []):
+                    phi = gromacs_dihedral_deg(tmpl[anames[a]], tmpl[anames[b]], tmpl[anames[c]], tmpl[anames[d]])
+                    diff = abs(phi - q0)
+                    if diff > 5 + 1e-6:
+                        ctx.fail("C15", "tolerance", f"{nd['resname']} reported optimised but improper "
+                                                     f"{anames[a]}-{anames[b]}-{anames[c]}-{anames[d]} is {phi:.3f} (target {q0})")
                 for a, b, c, th, _k in rt["angles"]:
                     ang = angle_deg(tmpl[anames[a]], tmpl[anames[b]], tmpl[anames[c]])
                     if abs(ang - th) > 5 + 1e-6:
